@@ -17,6 +17,12 @@ environment of `X`, fuel `entryFuel X`) against the run without them (environmen
   that occur (a sharper bound than `groupingNeed`, which counts the length of the name).
 
 Together: `ConvAgree` (`convAgree_of_stable`).  Core Lean only.
+
+Later parts: `LinkAgree` is derived from `DevExtCore` in `DevExtLink.lean`; `FuelStable` (every call, any
+scope list) is NOT true of a base whose `uses` resolves (`Props/C08.lean`, `fuelStable_fails`) — the
+top-level version `FuelStableTop` is, for every registry (`DevExtFuel.lean`, `fuelStableTop`), and
+`convAgreeTop_of_devExtCore` there puts the halves together.  `FgAgree.imp` asks only about statements
+with the keyword `module` / `submodule` (`ModImports`; `FlatModKw`: none but the roots).
 -/
 set_option linter.unusedSectionVars false
 namespace Goyang.Lemmas.DevExt
